@@ -199,4 +199,4 @@ def residual_sticky(chk, facts):
         n += 1
         chk.ob(rule, "sticky:%s" % vn, not bad, "%s: with a residual first operand every answer is a rebuilt residual node%s" % (vn, "" if not bad else " — except at %s (a concrete answer drops the residual, which may still error after substitution)" % bad),
                where=f.where(bad[0][0] if bad else None), fn=f.name, key="%s:sticky:%s" % (rule, vn))
-    chk.floor(rule, "arms with a residual first operand", n, 5)
+    chk.floor(rule, "arms with a residual first operand", n, 6)
